@@ -601,6 +601,134 @@ def _replace_node(root, old, new):
     return False
 
 
+# ------------------------------------------------------------------ N6 named values (aliases of stable pure expressions)
+
+PURE_DOTTED = {"os.path.join", "os.path.dirname", "os.path.basename", "os.path.exists"}
+MUTATORS = {"append", "extend", "insert", "pop", "remove", "clear", "update", "add", "discard", "sort", "reverse", "popitem", "setdefault", "appendleft", "popleft"}
+
+
+_MODULE_ATTR_STORES = set()
+
+
+def _dotted(node):
+    parts = []
+    while isinstance(node, ast.Attribute):
+        parts.append(node.attr)
+        node = node.value
+    if isinstance(node, ast.Name):
+        parts.append(node.id)
+        return ".".join(reversed(parts))
+    return None
+
+
+def _stable_expr(e, stable, mutated, attr_stores, self_unstable=None):
+    return _stable_expr0(e, stable, mutated, attr_stores, self_unstable)
+
+
+def _stable_expr0(e, stable, mutated, attr_stores, self_unstable):
+    """e is a side-effect-free expression whose value cannot change while the function runs (as far as the function itself is concerned)"""
+    if isinstance(e, ast.Constant):
+        return True
+    if isinstance(e, ast.Name):
+        return e.id in stable
+    if isinstance(e, ast.Attribute):
+        if isinstance(e.value, ast.Name) and e.value.id == "self":
+            # an attribute of self can be rebound by any method called in between: stable only if no method but __init__ stores it
+            return self_unstable is not None and e.attr not in self_unstable and e.attr not in attr_stores
+        # attributes of other objects: stable only if nothing in this module ever rebinds an attribute of that name outside a constructor
+        return e.attr not in attr_stores and e.attr not in _MODULE_ATTR_STORES and _stable_expr0(e.value, stable, mutated, attr_stores, self_unstable)
+    if isinstance(e, ast.Subscript):
+        base = e.value
+        return isinstance(e.slice, ast.Constant) and isinstance(base, ast.Name) and base.id in stable and base.id not in mutated
+    if isinstance(e, (ast.BoolOp,)):
+        return all(_stable_expr0(v, stable, mutated, attr_stores, self_unstable) for v in e.values)
+    if isinstance(e, ast.UnaryOp):
+        return _stable_expr0(e.operand, stable, mutated, attr_stores, self_unstable)
+    if isinstance(e, ast.Compare):
+        return _stable_expr0(e.left, stable, mutated, attr_stores, self_unstable) and all(_stable_expr0(c, stable, mutated, attr_stores, self_unstable) for c in e.comparators)
+    if isinstance(e, ast.BinOp) and isinstance(e.op, (ast.Add, ast.Sub, ast.Mult)):
+        return _stable_expr0(e.left, stable, mutated, attr_stores, self_unstable) and _stable_expr0(e.right, stable, mutated, attr_stores, self_unstable) and \
+            all(isinstance(x, (ast.Constant, ast.Name, ast.BinOp, ast.Call, ast.Attribute, ast.operator, ast.expr_context)) for x in ast.walk(e))
+    if isinstance(e, ast.Call) and not e.keywords:
+        d = _dotted(e.func)
+        if d == "len" and len(e.args) == 1 and isinstance(e.args[0], ast.Name):
+            return e.args[0].id in stable and e.args[0].id not in mutated
+        if d in ("isinstance", "issubclass", "callable", "type") or d in PURE_DOTTED:
+            return all(_stable_expr0(a, stable, mutated, attr_stores, self_unstable) for a in e.args)
+    return False
+
+
+def _named_values(fn, self_unstable=None):
+    n_done = 0
+    for _ in range(6):
+        stores, loads = {}, {}
+        for n in _walk_local(fn):
+            if isinstance(n, ast.Name):
+                (stores if isinstance(n.ctx, (ast.Store, ast.Del)) else loads).setdefault(n.id, []).append(n)
+            elif isinstance(n, ast.ExceptHandler) and n.name:
+                stores.setdefault(n.name, []).append(n)
+        params = {a.arg for a in fn.args.posonlyargs + fn.args.args + fn.args.kwonlyargs}
+        if fn.args.vararg:
+            params.add(fn.args.vararg.arg)
+        if fn.args.kwarg:
+            params.add(fn.args.kwarg.arg)
+        nested_names = {x.id for n in ast.walk(fn) if isinstance(n, FUNC + (ast.Lambda,)) and n is not fn for x in ast.walk(n) if isinstance(x, ast.Name)}
+        mutated, attr_stores = set(), set()
+        for n in ast.walk(fn):
+            if isinstance(n, ast.Call) and isinstance(n.func, ast.Attribute) and n.func.attr in MUTATORS and isinstance(n.func.value, ast.Name):
+                mutated.add(n.func.value.id)
+            if isinstance(n, (ast.Subscript, ast.Attribute)) and isinstance(n.ctx, (ast.Store, ast.Del)):
+                b = n.value
+                if isinstance(n, ast.Attribute):
+                    attr_stores.add(n.attr)
+                while isinstance(b, (ast.Subscript, ast.Attribute)):
+                    b = b.value
+                if isinstance(b, ast.Name):
+                    mutated.add(b.id)
+            if isinstance(n, (ast.For, ast.AsyncFor)):
+                for x in ast.walk(n.target):
+                    if isinstance(x, ast.Name):
+                        stores.setdefault(x.id, []).append(x)
+                        stores.setdefault(x.id, []).append(x)     # loop targets are re-bound every iteration
+        never_stored = {p for p in params if p not in stores} | {"self"}
+        free = {k for k in loads if k not in stores and k not in params}      # globals / builtins / enclosing names
+        changed = False
+        for blk in _blocks(fn):
+            for i, st in enumerate(blk):
+                if not (isinstance(st, ast.Assign) and len(st.targets) == 1 and isinstance(st.targets[0], ast.Name)):
+                    continue
+                v = st.targets[0].id
+                if len(stores.get(v, [])) != 1 or v in params or v in nested_names:
+                    continue
+                if isinstance(st.value, (ast.Constant,)) and not isinstance(st.value.value, (str, bytes, int)):
+                    continue
+                stable = never_stored | free
+                if not _stable_expr(st.value, stable, mutated, attr_stores, self_unstable):
+                    continue
+                if sum(1 for _x in ast.walk(st.value)) > 25:
+                    continue
+                uses = loads.get(v, [])
+                if not uses:
+                    continue
+                later = set()
+                for s2 in blk[i + 1:]:
+                    later |= {id(x) for x in ast.walk(s2)}
+                if not all(id(u) in later for u in uses):
+                    continue
+                # inside a loop the defining statement runs again each iteration: fine, uses follow it in the same block
+                for u in uses:
+                    _replace_node(fn, u, copy.deepcopy(st.value))
+                blk[i] = ast.copy_location(ast.Pass(), st)
+                changed = True
+                n_done += 1
+                break
+            if changed:
+                break
+        if not changed:
+            break
+    return n_done
+
+
 # ------------------------------------------------------------------ N3 conditional expressions at statement level
 
 def _expand_ifexp(fn):
@@ -636,9 +764,29 @@ def normalize(modname, tree):
     if inv is not None:
         stats["inlined"] = _Inliner(modname, tree, inv).run()
     stats["ifexp_expanded"] = 0
+    _MODULE_ATTR_STORES.clear()
+    for f_ in ast.walk(tree):
+        if isinstance(f_, FUNC) and f_.name != "__init__":
+            for x in ast.walk(f_):
+                if isinstance(x, ast.Attribute) and isinstance(x.ctx, (ast.Store, ast.Del)):
+                    _MODULE_ATTR_STORES.add(x.attr)
+    unstable = {}          # function node -> attributes of self that some method other than __init__ rebinds
+    for c in ast.walk(tree):
+        if isinstance(c, ast.ClassDef):
+            attrs = set()
+            for m in c.body:
+                if isinstance(m, FUNC) and m.name != "__init__":
+                    for x in ast.walk(m):
+                        if isinstance(x, ast.Attribute) and isinstance(x.ctx, (ast.Store, ast.Del)) and isinstance(x.value, ast.Name) and x.value.id == "self":
+                            attrs.add(x.attr)
+            for m in ast.walk(c):
+                if isinstance(m, FUNC):
+                    unstable[m] = attrs
     for n in ast.walk(tree):
         if isinstance(n, FUNC):
             # N3 is not applied (see flow.return_alts: rules enumerate the alternatives of a conditional return themselves)
+            stats["named_conditions"] += _named_conditions(n)
+            stats["named_values"] = stats.get("named_values", 0) + _named_values(n, unstable.get(n))
             stats["named_conditions"] += _named_conditions(n)
     ast.fix_missing_locations(tree)
     return stats
